@@ -1,0 +1,27 @@
+// SPDX-FileCopyrightText: 2020-present Open Networking Foundation <info@opennetworking.org>
+//
+// SPDX-License-Identifier: Apache-2.0
+
+//go:build verif
+
+package transaction
+
+import (
+	proposalstore "github.com/onosproject/onos-config/pkg/store/v2/proposal"
+	transactionstore "github.com/onosproject/onos-config/pkg/store/v2/transaction"
+)
+
+// NewReconcilerForVerif exposes the Reconciler to the verification harness
+func NewReconcilerForVerif(transactions transactionstore.Store, proposals proposalstore.Store) *Reconciler {
+	return &Reconciler{transactions: transactions, proposals: proposals}
+}
+
+// NewWatcherForVerif exposes the Watcher to the verification harness
+func NewWatcherForVerif(transactions transactionstore.Store) *Watcher {
+	return &Watcher{transactions: transactions}
+}
+
+// NewProposalWatcherForVerif exposes the ProposalWatcher to the verification harness
+func NewProposalWatcherForVerif(proposals proposalstore.Store) *ProposalWatcher {
+	return &ProposalWatcher{proposals: proposals}
+}
